@@ -668,6 +668,14 @@ func streamSlice(seed uint64, idx int) caseT {
 		d := canonOf(map[string]interface{}{"rows": rows})
 		lines = append(lines, "S "+hexField("rows"+e1+".m"+e2)+" "+d, "S "+hexField("rows"+e1+".m"+e2+e1)+" "+d, "S "+hexField("rows[*].m"+e1+" | @"+e2+e1)+" "+d)
 	}
+	if idx%11 == 0 { // numbers that do not fit an int (or an int64), of either sign, in every position
+		huge := []string{"-99999999999999999999", "99999999999999999999", "-9223372036854775809", "9223372036854775808", "-9223372036854775808", "9223372036854775807", "-18446744073709551617", "123456789012345678901234567890"}
+		h := huge[(idx/11)%len(huge)]
+		d := canonOf(map[string]interface{}{"a": []interface{}{0.0, 1.0, 2.0, 3.0, 4.0}})
+		for _, e := range []string{"a[" + h + ":]", "a[:" + h + "]", "a[::" + h + "]", "a[" + h + ":2]", "a[2:" + h + ":-1]", "a[" + h + "]", "a[1:3:" + h + "]"} {
+			lines = append(lines, "S "+hexField(e)+" "+d)
+		}
+	}
 	if idx%7 == 0 { // the same slice written with white space around every part, and one part per line
 		arr := make([]interface{}, n)
 		for i := range arr {
